@@ -377,7 +377,7 @@ theorem copyfile_traj {env : Env} {s : St} {x : Entry} (hnd : x.isDir = false) (
       · simp only [Prod.mk.injEq] at hr
         obtain ⟨rfl, -⟩ := hr
         exact Traj.refl (fun q => Or.inl rfl)
-      · exact ensureDirsWalk_ok hr
+      · exact ensureDirs_ok hwf.lt hr
     have hanc : ∀ q, q ∈ ancestorsIncl x.loc.tail → ProperAnc q x.loc := fun q hq =>
       properAnc_of_suffix_tail hloc (mem_ancestorsIncl.mp hq)
     have pens : ∀ f, EnsP s.fs (ancestorsIncl x.loc.tail) f → NonDirP s.fs x f := by
@@ -564,7 +564,7 @@ theorem noneOrDir_step {env : Env} {f f' : Fs} {fp : Path} {op : Op} (hI : NoneO
     · cases hs
     · split at hs
       · cases hs
-      · injection hs with hs; subst hs; right; exact ⟨f.next, ⟨.dir, m, env.uid, env.gid, 0⟩, by simp, rfl⟩
+      · injection hs with hs; subst hs; right; exact ⟨f.next, ⟨.dir, newDirMode f fp (m &&& 0o1777), env.uid, newGid env f fp, 0⟩, by simp, rfl⟩
   · simp only [step] at hs
     split at hs
     · cases hs
@@ -1015,7 +1015,7 @@ theorem merge_traj {env : Env} {off : Bool} {pre : Fs} {es : List Entry}
         have hwf1 := step_WF hpre e1
         simp only [step, if_true, hv0, Option.isSome_none, Bool.false_eq_true, if_false] at e1
         injection e1 with e1
-        have hv1 : ∀ q, s2.fs.view q = if q = [] then some (pre.next, ⟨.dir, maskMode 0o777 env.umask, env.uid, env.gid, 0⟩)
+        have hv1 : ∀ q, s2.fs.view q = if q = [] then some (pre.next, ⟨.dir, newDirMode pre [] ((maskMode 0o777 env.umask) &&& 0o1777), env.uid, newGid env pre [], 0⟩)
             else pre.view q := by
           intro q; rw [← e1]; simp
         refine { wf := hwf1.1, nextLe := hwf1.2, nodup := m0.nodup, sub := m0.sub,
